@@ -1,4 +1,4 @@
-CONSTANTS MaxEdits = 3
+CONSTANTS MaxEdits = 4
  Cfgs = {"none", "unsafeB", "unsafeA", "passB", "unsafeOwn", "passOwn"}
  HashValues = TRUE
  EmitAll = FALSE
